@@ -69,6 +69,18 @@ CLAIMS = {
    text="TLC proves ClosePropagates (a close reaches the other peer after all data sent before it) for the repaired design and refutes it under WaitBoth; on the real binaries who closes first x data in flight in either direction x segmentations are executed, the first closer half-closes gracefully, and the trace spec requires the other peer to observe end-of-stream (within 10 s) only after having received everything the closing peer had sent, and the TCP server to hold no bridged connection afterwards.",
    note="Trusted: TLC, harness peers. Data still travelling towards a peer that has itself closed is not covered by the property and not judged. 'Bounded time' = 10 s.",
    design="6 C16"),
+ "C17": dict(engine="AppProxy", technique="TLA+ spec AppProxy (reference semantics AgentCallOK / AdminCallOK / UserRoutingOK) + all access-control combinations enumerated by TLC run against the real app binary (3 services as processes) with a fake App Engine API + TLC trace validation (AppProxyTrace)",
+   text="All 240 combinations of agent endpoint x caller identity x backend named x request ID kind, plus 18 admin-API calls by 6 kinds of caller, are executed against the real app; for each call the harness records status, whether the reply reveals request bytes or IDs, whether the store changed and which datastore kinds were touched, and the TLA+ operators decide: exactly the registered backend user gets 200 (404 for foreign/unknown IDs, 400 for a missing ID), everybody else 401 with nothing learnt and nothing changed; only administrators get past 403.",
+   note="Trusted: TLC, the fake App Engine API (datastore/memcache/user over the rpc_http protocol), identities injected through ticket / X-AppEngine-User headers. /cron/delete is protected by app.yaml, not by code, and is not judged.",
+   design="6 C17"),
+ "C18": dict(engine="AppProxy", technique="TLA+ spec AppProxy (RouteAnswers: longest matching prefix among the user's backends, shared fallback, liveness) as reference + random backend sets over TLC-exported domains registered in the real app + TLC trace validation (AppProxyTrace)",
+   text="40 (quick) / 400 (thorough) random backend sets x 3 (user, path) requests: backends are registered through the admin API, their trackers aged in the fake datastore, a client request is issued and the backend it was stored under is read off the datastore; the TLA+ operator RouteAnswers gives the set of acceptable answers (any maximal live candidate, 404 otherwise) and the same request must route identically twice.",
+   note="Trusted: TLC, fake App Engine API. Function-level exhaustive comparison of mostSpecificMatchingBackend is not done separately; prefix/path domains are small (7 prefixes, 8 paths) and exercised through the whole app.",
+   design="6 C18"),
+ "C19": dict(engine="AppProxy", technique="TLA+ spec AppProxy (response call with failing store writes and a bounded error channel: NoHang; ErrSlots attack; Parts(n) blob rule) checked by TLC + relay scenarios at exact size boundaries and failing-write subsets on the real app + TLC trace validation",
+   text="TLC proves that the response call always returns with room for both errors and hangs with one slot; on the real app one request is relayed per serialised size in {0..3.5 MB, incl. 999999/1000000/1000001 and 1999999/2000000/2000001 hit exactly}: the agent must fetch exactly the client's request, the client must get exactly the posted response, the number of blob parts must equal Parts(n), the completed request must not be listed again; two requests answered in reverse order; and the response call under every subset of failing datastore writes must be answered (non-200) within 8 s.",
+   note="Trusted: TLC, fake App Engine API with fault injection on datastore Put by kind. The 30 s 504 path is not exercised in the quick tier.",
+   design="6 C19"),
  "C01": dict(engine="Relay", technique="TLA+ spec Relay checked by TLC (exhaustive interleavings, liveness, IdCollision attack) + TLC trace validation (RelayTrace) of recorded executions of the real proxy/agent binaries, incl. -race builds",
    text="Bounded-exhaustive model checking of the proxy/agent relay design (all interleavings of 3 requests, 2-3 pollers, faults) plus conformance: every hook/observable event of bursts of up to 64 concurrent clients through the real binaries must be a behaviour of the specification, with the correlation invariants evaluated at every step.",
    note="Trusted: TLC, the token projection of the harness backend/clients, hook placement (receiver side of channel rendezvous). Bounds: 3 requests in the model, <=64 concurrent clients per burst in the runs. Race-detector reports count only with both stacks in repository code.",
